@@ -139,24 +139,29 @@ TIME_FIELDS = dict(hits=(0,), holds=(0, 2), samples=(0,), bpms=(), svs=())
 
 
 def _cmp_ms(ctx, label, A, B):
-    """B (denoted by a written file) equals A (the chart) with note/sample times moved by less than 1 ms."""
+    """B (denoted by a written file) equals A (the chart) with note/sample times moved by less than 1 ms.  Each facet has a
+    twin with the bound 1.001 ms: a counterexample of the twin violates the bound by a margin, so it survives the float
+    tolerance of the replay (a counterexample exactly on the bound does not)."""
+    from fractions import Fraction
+
     for k in ("hits", "holds", "bpms", "svs", "samples"):
         ctx.check("%s.%s.count" % (label, k), len(A[k]) == len(B[k]), note="%d vs %d" % (len(A[k]), len(B[k])))
         tf = TIME_FIELDS[k]
-
-        def eq(a, b, tf=tf, k=k):
-            conds = []
-            for i, (x, y) in enumerate(zip(a, b)):
-                if i in tf:
-                    if k == "holds" and i == 2:  # compare hold *ends*
-                        conds.append(False if isna(x) or isna(y) else ctx.within((a[0] + x), (b[0] + y), 1))
+        for bound, tag in ((1, "within-1ms"), (Fraction(1001, 1000), "within-1.001ms")):
+            def eq(a, b, tf=tf, k=k, bound=bound):
+                conds = []
+                for i, (x, y) in enumerate(zip(a, b)):
+                    if i in tf:
+                        if k == "holds" and i == 2:  # compare hold *ends*
+                            conds.append(False if isna(x) or isna(y) else ctx.within((a[0] + x), (b[0] + y), bound))
+                        else:
+                            conds.append(False if isna(x) or isna(y) else ctx.within(x, y, bound))
                     else:
-                        conds.append(False if isna(x) or isna(y) else ctx.within(x, y, 1))
-                else:
-                    conds.append(cell_same(ctx, x, y))
-            return ctx.all(*conds)
+                        conds.append(cell_same(ctx, x, y))
+                return ctx.all(*conds)
 
-        ctx.check("%s.%s.same-objects-within-1ms" % (label, k), same_multiset(ctx, A[k], B[k], eq=eq), note="%r vs %r" % (A[k][:2], B[k][:2]))
+            if tf or tag == "within-1ms":
+                ctx.check("%s.%s.same-objects-%s" % (label, k, tag), same_multiset(ctx, A[k], B[k], eq=eq), note="%r vs %r" % (A[k][:2], B[k][:2]))
 
 
 def _meta_of_lib(m):
